@@ -380,6 +380,11 @@ def run(cs, tier, run_index):
         sch.run(wall_timeout=RUN_WALL_CAP - 5)
 
         # ---- oracles (quiescent, untraced) -----------------------------------
+        # the harness's own arithmetic must not inherit an error state a generator may have left behind
+        err_now = np.geterr()
+        if err_now != {"divide": "warn", "over": "warn", "under": "ignore", "invalid": "warn"}:
+            res.probe("numpy_error_state_changed_by_library")
+            np.seterr(divide="warn", over="warn", under="ignore", invalid="warn")
         counts = {}
         for i in range(n_clients):
             for k, op, out, s0, s1 in records[i]:
